@@ -38,7 +38,7 @@ REQUIRED = ["objects", "layout_compared", "roundtrips", "table_dispatch",
             "structured_bodies_changed_and_reencoded",
             "objects_compared_before_and_after_encoding",
             "nx_action_bodies_compared", "nx_message_bodies_compared",
-            "nxm_numbers_compared"]
+            "nxm_numbers_compared", "decoded_as_last_message_in_buffer"]
 TIMEOUT = {"quick": 900, "thorough": 7200}
 
 # wildcard bit constants (OpenFlow 1.0 spec)
@@ -224,6 +224,8 @@ def check_message (ctx, m, rng):
       ctx.fire(cname, "re-encoding differs", "at byte %d: %s vs %s" %
                (i, hexs(b2[max(0, i - 4):i + 12]), hexs(b[max(0, i - 4):i + 12])))
   ctx.rep.count("roundtrips")
+  from pvm.checks import c01_nx
+  c01_nx.table_decode(ctx, cname, m, b, rng)
   # objects decoded earlier are still what they were (no state shared between
   # instances of a message class, e.g. through a class-level list)
   old = _earlier.get(cname)
